@@ -88,6 +88,9 @@ class CallMixin:
             hm = self.st.ghost.get("host_methods", {}).get(attr)
             if hm is not None:
                 return self.st.register(BoundMethod(hm, obj))
+            if attr in ("decode", "hex") and self.ctx.must(
+                    z3.Select(self.st.typeof, Val.r(obj)) == self.table.id("bytes")):
+                return self.st.register(BoundMethod(BuiltinFn("bytes." + attr), obj))
             res = self.host_op("getattr_" + attr, obj, node)
             if attr == "__dict__":
                 # trusted: an instance's attribute dictionary, when it exists, is an exact dict owned by the host
